@@ -36,62 +36,61 @@ From RopeVerif.C02 Require Import Occurrences.
 Import ListNotations.
 
 (* ------------------------------------------------------------------ relabelling the tokens of a program *)
-Section Relabel.
-  Variable f : occ -> occ.
+Definition rl_param (f : occ -> occ) (p : param) : param := let 'Param k o := p in Param k (f o).
 
-  Definition rl_param (p : param) : param := let 'Param k o := p in Param k (f o).
+Fixpoint rl_e (f : occ -> occ) (e : expr) : expr :=
+  match e with
+  | EName o => EName (f o)
+  | EConst => EConst
+  | EAttr b o => EAttr (rl_e f b) (f o)
+  | ESub b i => ESub (rl_e f b) (rl_e f i)
+  | ETuple es => ETuple (map (rl_e f) es)
+  | EOp es => EOp (map (rl_e f) es)
+  | ECall g args => ECall (rl_e f g) (map (rl_e f) args)
+  | EKw o v => EKw (f o) (rl_e f v)
+  | ENamed o v => ENamed (f o) (rl_e f v)
+  | ELambda l s ps ae b => ELambda l s (map (rl_param f) ps) (map (rl_e f) ae) (rl_e f b)
+  | EComp k l s elts gens => EComp k l s (map (rl_e f) elts) (map (rl_c f) gens)
+  end
+with rl_c (f : occ -> occ) (c : comp) : comp :=
+  match c with Comp t i ifs => Comp (rl_e f t) (rl_e f i) (map (rl_e f) ifs) end.
 
-  Fixpoint rl_e (e : expr) : expr :=
-    match e with
-    | EName o => EName (f o)
-    | EConst => EConst
-    | EAttr b o => EAttr (rl_e b) (f o)
-    | ESub b i => ESub (rl_e b) (rl_e i)
-    | ETuple es => ETuple (map rl_e es)
-    | EOp es => EOp (map rl_e es)
-    | ECall g args => ECall (rl_e g) (map rl_e args)
-    | EKw o v => EKw (f o) (rl_e v)
-    | ENamed o v => ENamed (f o) (rl_e v)
-    | ELambda l s ps ae b => ELambda l s (map rl_param ps) (map rl_e ae) (rl_e b)
-    | EComp k l s elts gens => EComp k l s (map rl_e elts) (map rl_c gens)
-    end
-  with rl_c (c : comp) : comp :=
-    match c with Comp t i ifs => Comp (rl_e t) (rl_e i) (map rl_e ifs) end.
+Definition rl_oe (f : occ -> occ) (o : option expr) : option expr := option_map (rl_e f) o.
+Definition rl_item (f : occ -> occ) (it : expr * option expr) : expr * option expr :=
+  (rl_e f (fst it), rl_oe f (snd it)).
+Definition rl_import (f : occ -> occ) (n : list occ * option occ) : list occ * option occ :=
+  (map f (fst n), option_map f (snd n)).
+Definition rl_from (f : occ -> occ) (n : occ * option occ) : occ * option occ := (f (fst n), option_map f (snd n)).
 
-  Definition rl_oe (o : option expr) : option expr := option_map rl_e o.
-  Definition rl_item (it : expr * option expr) : expr * option expr := (rl_e (fst it), rl_oe (snd it)).
-  Definition rl_import (n : list occ * option occ) : list occ * option occ := (map f (fst n), option_map f (snd n)).
-  Definition rl_from (n : occ * option occ) : occ * option occ := (f (fst n), option_map f (snd n)).
+Fixpoint rl_s (f : occ -> occ) (s : stmt) : stmt :=
+  match s with
+  | SExpr l es => SExpr l (map (rl_e f) es)
+  | SReturn l e => SReturn l (rl_oe f e)
+  | SAssign l ts v => SAssign l (map (rl_e f) ts) (rl_e f v)
+  | SAug l t v => SAug l (rl_e f t) (rl_e f v)
+  | SAnn l t a v => SAnn l (rl_e f t) (rl_e f a) (rl_oe f v)
+  | SDel l ts => SDel l (map (rl_e f) ts)
+  | SPass l => SPass l
+  | SIf l t b o => SIf l (rl_e f t) (map (rl_s f) b) (map (rl_s f) o)
+  | SWhile l t b o => SWhile l (rl_e f t) (map (rl_s f) b) (map (rl_s f) o)
+  | SFor l t i b o => SFor l (rl_e f t) (rl_e f i) (map (rl_s f) b) (map (rl_s f) o)
+  | SWith l items b => SWith l (map (rl_item f) items) (map (rl_s f) b)
+  | STry l b hs o fin =>
+      STry l (map (rl_s f) b)
+           (map (fun h => match h with
+                          | Handler hl ty nm hb => Handler hl (rl_oe f ty) (option_map f nm) (map (rl_s f) hb)
+                          end) hs)
+           (map (rl_s f) o) (map (rl_s f) fin)
+  | SDef l st d n ps ae r b =>
+      SDef l st (map (rl_e f) d) (f n) (map (rl_param f) ps) (map (rl_e f) ae) (rl_oe f r) (map (rl_s f) b)
+  | SClass l st d n bs b => SClass l st (map (rl_e f) d) (f n) (map (rl_e f) bs) (map (rl_s f) b)
+  | SImport l ns => SImport l (map (rl_import f) ns)
+  | SFrom l lv m ns => SFrom l lv (map f m) (option_map (map (rl_from f)) ns)
+  | SGlobal l ns => SGlobal l (map f ns)
+  | SNonlocal l ns => SNonlocal l (map f ns)
+  end.
 
-  Fixpoint rl_s (s : stmt) : stmt :=
-    match s with
-    | SExpr l es => SExpr l (map rl_e es)
-    | SReturn l e => SReturn l (rl_oe e)
-    | SAssign l ts v => SAssign l (map rl_e ts) (rl_e v)
-    | SAug l t v => SAug l (rl_e t) (rl_e v)
-    | SAnn l t a v => SAnn l (rl_e t) (rl_e a) (rl_oe v)
-    | SDel l ts => SDel l (map rl_e ts)
-    | SPass l => SPass l
-    | SIf l t b o => SIf l (rl_e t) (map rl_s b) (map rl_s o)
-    | SWhile l t b o => SWhile l (rl_e t) (map rl_s b) (map rl_s o)
-    | SFor l t i b o => SFor l (rl_e t) (rl_e i) (map rl_s b) (map rl_s o)
-    | SWith l items b => SWith l (map rl_item items) (map rl_s b)
-    | STry l b hs o fin =>
-        STry l (map rl_s b)
-             (map (fun h => match h with
-                            | Handler hl ty nm hb => Handler hl (rl_oe ty) (option_map f nm) (map rl_s hb)
-                            end) hs)
-             (map rl_s o) (map rl_s fin)
-    | SDef l st d n ps ae r b => SDef l st (map rl_e d) (f n) (map rl_param ps) (map rl_e ae) (rl_oe r) (map rl_s b)
-    | SClass l st d n bs b => SClass l st (map rl_e d) (f n) (map rl_e bs) (map rl_s b)
-    | SImport l ns => SImport l (map rl_import ns)
-    | SFrom l lv m ns => SFrom l lv (map f m) (option_map (map rl_from) ns)
-    | SGlobal l ns => SGlobal l (map f ns)
-    | SNonlocal l ns => SNonlocal l (map f ns)
-    end.
-
-  Definition relabel (p : program) : program := map rl_s p.
-End Relabel.
+Definition relabel (f : occ -> occ) (p : program) : program := map (rl_s f) p.
 
 Definition memN (x : N) (l : list N) : bool := existsb (N.eqb x) l.
 
@@ -99,13 +98,82 @@ Definition memN (x : N) (l : list N) : bool := existsb (N.eqb x) l.
 Definition respell (ids : list N) (n : ident) (o : occ) : occ :=
   let 'Occ i k x := o in if memN i ids then Occ i k n else o.
 
+(* ------------------------------------------------------------------ tokens in positions rope's visitors skip *)
+(* A comprehension (or lambda / walrus) in a position the scope visitors do not descend into - return value, augmented
+   and annotated assignment, assignment / del / for targets, for iterable, with items, except type, conditions of a
+   comprehension - or that they attach elsewhere - decorators, defaults, annotations, base classes - has no scope
+   of its own in rope (findings of C15: unvisited / misattached expressions).  The scope paths C02's token
+   list gives to the tokens inside such an expression are then meaningless; the runner leaves these tokens out. *)
+Fixpoint e_ids (e : expr) : list N :=
+  match e with
+  | EName o => [oid o]
+  | EConst => []
+  | EAttr b o => e_ids b ++ [oid o]
+  | ESub b i => e_ids b ++ e_ids i
+  | ETuple es | EOp es => flat_map e_ids es
+  | ECall g args => e_ids g ++ flat_map e_ids args
+  | EKw o v => oid o :: e_ids v
+  | ENamed o v => oid o :: e_ids v
+  | ELambda _ _ ps ae b => map (fun p => oid (pocc p)) ps ++ flat_map e_ids ae ++ e_ids b
+  | EComp _ _ _ elts gens => flat_map e_ids elts ++ flat_map c_ids gens
+  end
+with c_ids (c : comp) : list N :=
+  match c with Comp t i ifs => e_ids t ++ e_ids i ++ flat_map e_ids ifs end.
+
+Definition odd_ids (e : expr) : list N := if simple_expr e then [] else e_ids e.
+
+(* comprehension conditions anywhere inside a visited expression *)
+Fixpoint e_cond_ids (e : expr) : list N :=
+  match e with
+  | EName _ | EConst => []
+  | EAttr b _ => e_cond_ids b
+  | ESub b i => e_cond_ids b ++ e_cond_ids i
+  | ETuple es | EOp es => flat_map e_cond_ids es
+  | ECall g args => e_cond_ids g ++ flat_map e_cond_ids args
+  | EKw _ v => e_cond_ids v
+  | ENamed _ v => e_cond_ids v
+  | ELambda _ _ _ ae b => flat_map e_ids ae ++ e_ids b
+  | EComp _ _ _ elts gens => flat_map e_cond_ids elts ++ flat_map c_cond_ids gens
+  end
+with c_cond_ids (c : comp) : list N :=
+  match c with Comp t i ifs => odd_ids t ++ e_cond_ids i ++ flat_map odd_ids ifs end.
+
+Fixpoint s_unvisited (s : stmt) : list N :=
+  match s with
+  | SExpr _ es => flat_map e_cond_ids es
+  | SReturn _ e => flat_map odd_ids (opt_list e)
+  | SAssign _ ts v => flat_map odd_ids ts ++ e_cond_ids v
+  | SAug _ t v => odd_ids t ++ odd_ids v
+  | SAnn _ t a v => odd_ids t ++ odd_ids a ++ flat_map odd_ids (opt_list v)
+  | SDel _ ts => flat_map odd_ids ts
+  | SPass _ => []
+  | SIf _ t b o | SWhile _ t b o => e_cond_ids t ++ flat_map s_unvisited b ++ flat_map s_unvisited o
+  | SFor _ t i b o => odd_ids t ++ odd_ids i ++ flat_map s_unvisited b ++ flat_map s_unvisited o
+  | SWith _ items b =>
+      flat_map (fun it => odd_ids (fst it) ++ flat_map odd_ids (opt_list (snd it))) items ++ flat_map s_unvisited b
+  | STry _ b hs o f =>
+      flat_map s_unvisited b
+      ++ flat_map (fun h => match h with
+                            | Handler _ ty _ hb => flat_map odd_ids (opt_list ty) ++ flat_map s_unvisited hb
+                            end) hs
+      ++ flat_map s_unvisited o ++ flat_map s_unvisited f
+  | SDef _ _ d _ _ ae r b =>
+      flat_map odd_ids d ++ flat_map odd_ids ae ++ flat_map odd_ids (opt_list r) ++ flat_map s_unvisited b
+  | SClass _ _ d _ bs b => flat_map odd_ids d ++ flat_map odd_ids bs ++ flat_map s_unvisited b
+  | SImport _ _ | SFrom _ _ _ _ | SGlobal _ _ | SNonlocal _ _ => []
+  end.
+Definition unvisited_ids (p : program) : list N := flat_map s_unvisited p.
+
+(* the table of the functions written directly in class bodies (C02) *)
+Notation methtab := (list (path * option ident * (bool * bool))) (only parsing).
+
 (* ------------------------------------------------------------------ one module *)
 Section OneModule.
   Variable bi : list ident.
   Variable inh : path -> ident -> option binding.
   Variable rt : rscope.
   Variable init call : ident.
-  Variable meths : list (path * ident * bool).
+  Variable meths : methtab.
   Variable kwlike : N -> bool.
   Variable ts : list tok.
 
@@ -136,11 +204,11 @@ Inductive outcome :=
 | Unmodelled
 | Renamed (p' : program) (ids : list N).
 
-Definition rename_module (bi ids : list ident) (init call : ident) (odd : list ident) (kwl : list N)
+Definition rename_module (bi ids : list ident) (init call : ident) (odd : list ident) (prop : ident) (kwl : list N)
            (p : program) (qid : N) (n : ident) (n_is_keyword : bool) : outcome :=
   let rt := rope_tree p in
   let inh := inh_of (fst (rope_inh bi rt ids)) in
-  let ms := methods odd p in
+  let ms := methods odd prop p in
   let ts := toks p in
   match find (fun t => N.eqb (t_id t) qid) ts with
   | None => Unmodelled
@@ -199,21 +267,22 @@ Record mctx := MCtx {
   x_name : ident;                  (* the module is <name>.py in the project root *)
   x_rt : rscope;
   x_inh : inh_table;
-  x_ms : list (path * ident * bool);
+  x_ms : methtab;
   x_kw : list N;
   x_ts : list tok;
   x_imports : list (ident * itarget)
 }.
 
-Definition mk_ctx (bi ids : list ident) (odd : list ident) (name : ident) (kwl : list N) (p : program) : mctx :=
+Definition mk_ctx (bi ids : list ident) (odd : list ident) (prop : ident) (name : ident) (kwl : list N) (p : program) : mctx :=
   let rt := rope_tree p in
-  MCtx name rt (fst (rope_inh bi rt ids)) (methods odd p) kwl (toks p) (flat_map s_imports p).
+  MCtx name rt (fst (rope_inh bi rt ids)) (methods odd prop p) kwl (toks p) (flat_map s_imports p).
 
 Inductive gkey :=
 | GNone                               (* None *)
 | GErr                                (* the evaluation raises *)
 | GUnm                                (* not modelled *)
 | GVar (m : nat) (b : binding) (x : ident)   (* the PyName the names of scope b of module m hold under x *)
+| GBuiltin (x : ident)                (* the PyName of a builtin: one for the whole project *)
 | GMod (m : nat)                      (* ImportedModule of project module m *)
 | GUnres.                             (* an import PyName that resolves to nothing *)
 
@@ -231,7 +300,8 @@ Section Project.
        | c :: r => if N.eqb (x_name c) a then Some i else go (S i) r
        end) 0%nat cx.
 
-  Definition mod_key (a : ident) : gkey := match find_mod a with Some i => GMod i | None => GUnres end.
+  (* a name that is not a flat module of the project may be a package or a library module: not modelled *)
+  Definition mod_key (a : ident) : gkey := match find_mod a with Some i => GMod i | None => GUnm end.
 
   (* module m's own PyName for y, imports followed (ImportedName._get_imported_pyname) *)
   Fixpoint name_in (fuel : nat) (m : nat) (y : ident) : gkey :=
@@ -246,7 +316,7 @@ Section Project.
             | Some NImport =>
                 match last_import (x_imports c) y with
                 | Some (TMod a) => mod_key a
-                | Some (TName a z) => match find_mod a with Some i => name_in fu i z | None => GUnres end
+                | Some (TName a z) => match find_mod a with Some i => name_in fu i z | None => GUnm end
                 | _ => GUnm
                 end
             | Some _ => GVar m (BScope []) y
@@ -263,6 +333,7 @@ Section Project.
     | PError => GErr
     | PUnmodelled => GUnm
     | PFreshImport => GUnm
+    | PName BBuiltin x false => GBuiltin x
     | PName b x false => GVar m b x
     | PName (BScope []) x true => name_in fuel0 m x
     | PName _ _ true => GUnm
@@ -285,7 +356,12 @@ Section Project.
         | GUnres => GNone
         | GVar m' _ _ =>
             if Nat.eqb m' m
-            then key_of_pn m (rope_pyname_at bi inh (x_rt c) init call (x_ms c) kwl t)
+            then match key_of_pn m (rope_pyname_at bi inh (x_rt c) init call (x_ms c) kwl t) with
+                 | GNone =>
+                     (* no such attribute as far as this module goes: a base class that is imported may provide it *)
+                     match x_imports c with [] => GNone | _ => GUnm end
+                 | k => k
+                 end
             else GUnm
         | GNone => GNone
         | _ => GUnm
@@ -308,6 +384,7 @@ Section Project.
     match a, b with
     | GVar m x n, GVar m' y n' => Nat.eqb m m' && binding_eqb x y && N.eqb n n'
     | GMod m, GMod m' => Nat.eqb m m'
+    | GBuiltin x, GBuiltin y => N.eqb x y
     | GUnres, GUnres => true
     | _, _ => false
     end.
@@ -344,14 +421,23 @@ Section Project.
   | RRefused | RRaised | RUnmodelled
   | RChanges (local : bool) (edits : list (nat * list N)) (moves : list nat).
 
-  (* get_changes for the PyName with key [kq], found under the spelling [x] in module [m] *)
-  Definition rename_key (cmp : nat -> tok -> bool) (m : nat) (x : ident) (kq : gkey) (n_is_keyword : bool) : result :=
+  (* get_changes for the PyName with key [kq], found under the spelling [x] in module [m].
+     [repaired] = false is the code as found.  [repaired] = true is the behaviour after the two small fixes proposed
+     for findings C01-builtin-renamed (a builtin is refused) and C01-module-alias-moves-module (the file is moved
+     only when the renamed name is the module's own name): the runner accepts either, so that the check keeps
+     passing when the fixes are applied, and the evidence says which one was observed. *)
+  Definition module_named (a : nat) (x : ident) : bool :=
+    match ctx_at a with Some c => N.eqb (x_name c) x | None => false end.
+
+  Definition rename_key (repaired : bool) (cmp : nat -> tok -> bool) (m : nat) (x : ident) (kq : gkey)
+             (n_is_keyword : bool) : result :=
     match kq with
     | GNone => RRefused
     | GErr => RRaised
     | GUnm => RUnmodelled
     | _ =>
-        if n_is_keyword then RRefused
+        if match kq with GBuiltin _ => repaired | _ => false end then RRefused
+        else if n_is_keyword then RRefused
         else
           let loc := is_local kq in
           let searched := filter (fun jc => if loc then Nat.eqb (fst jc) m else true) (enum_from 0 cx) in
@@ -359,20 +445,25 @@ Section Project.
                                            | [] => []
                                            | l => [(fst jc, l)]
                                            end) searched in
-          RChanges loc edits (match kq with GMod a => [a] | _ => [] end)
+          RChanges loc edits (match kq with
+                              | GMod a => if repaired && negb (module_named a x) then [] else [a]
+                              | _ => []
+                              end)
     end.
 
   (* Rename(project, resource, offset).get_changes(new_name) *)
-  Definition project_rename (cmp : nat -> tok -> bool) (m : nat) (qid : N) (n_is_keyword : bool) : result :=
+  Definition project_rename_gen (repaired : bool) (cmp : nat -> tok -> bool) (m : nat) (qid : N)
+             (n_is_keyword : bool) : result :=
     match token_of m qid with
     | None => RUnmodelled
-    | Some (c, q) => rename_key cmp m (t_name q) (gkey_of m c q) n_is_keyword
+    | Some (c, q) => rename_key repaired cmp m (t_name q) (gkey_of m c q) n_is_keyword
     end.
+  Definition project_rename := project_rename_gen false.
 
   (* Rename(project, resource).get_changes(new_name): the module itself *)
   Definition module_rename (cmp : nat -> tok -> bool) (m : nat) (n_is_keyword : bool) : result :=
     match ctx_at m with
-    | Some c => rename_key cmp m (x_name c) (GMod m) n_is_keyword
+    | Some c => rename_key false cmp m (x_name c) (GMod m) n_is_keyword
     | None => RUnmodelled
     end.
 
